@@ -571,3 +571,64 @@ M('c17-cleanup-generic-arm-before-fallback-arm', 'C17', 'R3', APP, _CLEANUP_OLD,
             falcon._logger.warning('[FALCON] Attempt to close web connection cleanly failed due to raised error.', exc_info=True)
             raise
 """)
+
+# ------------------------------------------------------------------ R8 (= C18 R7, shared): the receive path ignores the sender-side flag (s6-c17-2)
+M('c17-require-accepted-fails-fast-on-disconnect-flag', 'C17', 'R8', WS,
+  """        elif self._state == _WebSocketState.CLOSED:
+            raise errors.WebSocketDisconnected(self._close_code)
+
+    def _translate_webserver_error""", """
+        if self._buffered_receiver.client_disconnected:
+            self._state = _WebSocketState.CLOSED
+            self._close_code = self._buffered_receiver.client_disconnected_code
+
+        if self._state == _WebSocketState.CLOSED:
+            raise errors.WebSocketDisconnected(self._close_code)
+
+    def _translate_webserver_error""", also=('C18',))
+M('c17-receive-text-checks-closed-property', 'C17', 'R8', WS,
+  """        self._require_accepted()
+
+        event = await self._receive()
+
+        # PERF(kgriffs): When we normally expect the key to be
+        #   present, this pattern is faster than get()
+        try:
+            text = event['text']""", """        self._require_accepted()
+        if self.closed:
+            raise errors.WebSocketDisconnected(self._close_code)
+
+        event = await self._receive()
+
+        # PERF(kgriffs): When we normally expect the key to be
+        #   present, this pattern is faster than get()
+        try:
+            text = event['text']""", also=('C18',))
+
+# ------------------------------------------------------------------ R9: the disconnected error always carries an integer code (s6-c17-3)
+ERR = 'falcon/errors.py'
+_WSD_INIT_OLD = """    def __init__(self, code: Optional[int] = None) -> None:
+        self.code = code or 1000  # Default to "Normal Closure"
+"""
+# the seed: "idiomatic" default argument; ws.py passes None explicitly
+M('c17-disconnected-default-argument-instead-of-or', 'C17', 'R9', ERR, _WSD_INIT_OLD, """    def __init__(self, code: int = 1000) -> None:  # Default to "Normal Closure"
+        self.code = code
+""")
+M('c17-disconnected-stores-optional-code-verbatim', 'C17', 'R9', ERR, _WSD_INIT_OLD, """    def __init__(self, code: Optional[int] = None) -> None:
+        self.code = code
+""")
+# the None test is inverted: an explicit code is replaced, None is kept
+M('c17-disconnected-none-test-inverted', 'C17', 'R9', ERR, _WSD_INIT_OLD, """    def __init__(self, code: Optional[int] = None) -> None:
+        self.code = 1000 if code is not None else code
+""")
+# every disconnect is reported as a normal closure
+M('c17-disconnected-ignores-given-code', 'C17', 'R9', ERR, _WSD_INIT_OLD, """    def __init__(self, code: Optional[int] = None) -> None:
+        self.code = 1000  # Default to "Normal Closure"
+""")
+# the constructor keeps None (default argument), and only one of the sites learnt to substitute the default
+M2('c17-disconnected-verbatim-one-site-guarded', 'C17', 'R9', [
+    {'file': ERR, 'old': _WSD_INIT_OLD, 'new': """    def __init__(self, code: int = 1000) -> None:
+        self.code = code
+"""},
+    {'file': WS, 'old': "            return errors.WebSocketDisconnected(close_code)", 'new': "            return errors.WebSocketDisconnected(close_code or 1000)"},
+])
